@@ -21,7 +21,7 @@ pub const C11: Check = Check {
                     as into_snapshot produces them"],
     shards: |_| 16,
     watchdog: |t| Duration::from_secs(t.pick(300, 3600)),
-    budget: |t| Duration::from_secs(t.pick(25, 600)),
+    budget: |t| Duration::from_secs(t.pick(25, 300)),
     run: run_c11,
     crash_is_violation: false,
     finish: None,
@@ -139,7 +139,7 @@ pub const C12: Check = Check {
     assumptions: &["each step's change set is produced by PayloadDelta::construct on consecutive data sets"],
     shards: |_| 16,
     watchdog: |t| Duration::from_secs(t.pick(300, 3600)),
-    budget: |t| Duration::from_secs(t.pick(25, 600)),
+    budget: |t| Duration::from_secs(t.pick(25, 300)),
     run: run_c12,
     crash_is_violation: false,
     finish: None,
